@@ -6,6 +6,10 @@
 #define _GNU_SOURCE
 #include <dlfcn.h>
 #include <stdlib.h>
+#include <errno.h>
+#include <fcntl.h>
+#include <stdio.h>
+#include <string.h>
 #include <sys/stat.h>
 #include <time.h>
 #include <unistd.h>
@@ -52,4 +56,34 @@ int clock_gettime(clockid_t id, struct timespec *ts)
 			ts->tv_sec -= 5;
 	}
 	return ret;
+}
+
+/* With VERIF_CLOSE_LOSS=1 the close() of a file named stream.obs that is open for writing fails with EIO
+ * and the data written since the header is lost (the file is cut to 8 bytes first), as a network or
+ * quota-limited file system may report deferred write errors only at close.  (stdio's fclose does not come
+ * through here: only a direct close() of the stream descriptor.) */
+int close(int fd)
+{
+	static int (*real)(int) = NULL;
+	static int on = -1;
+	if (!real)
+		real = (int (*)(int)) dlsym(RTLD_NEXT, "close");
+	if (on == -1)
+		on = getenv("VERIF_CLOSE_LOSS") != NULL;
+	if (on && fd > 2) {
+		char link[64], path[4096];
+		snprintf(link, sizeof(link), "/proc/self/fd/%d", fd);
+		ssize_t n = readlink(link, path, sizeof(path) - 1);
+		int fl = fcntl(fd, F_GETFL);
+		if (n > 10 && fl != -1 && (fl & O_ACCMODE) != O_RDONLY) {
+			path[n] = 0;
+			if (strcmp(path + n - 10, "stream.obs") == 0) {
+				if (ftruncate(fd, 8) != 0) { /* keep going */ }
+				real(fd);
+				errno = EIO;
+				return -1;
+			}
+		}
+	}
+	return real(fd);
 }
